@@ -12,6 +12,8 @@
 # See the License for the specific language governing permissions and
 # limitations under the License.
 
+import os
+
 import numpy as np
 from scipy import stats
 from collections import Counter
@@ -46,6 +48,8 @@ def get_resampled_frequencies(freq_dict, ncount):
 
     # Generate samples from distribution. Cut in chunks to ensure samples fit in memory, gradually accumulate
     chunk_size = 10**7
+    if os.environ.get("TANGELO_VERIF"):  # verification hook (off by default): lets a simulator shrink the chunk size
+        chunk_size = int(os.environ.get("TANGELO_VERIF_CHUNK_SIZE", chunk_size))
     n_chunks = ncount // chunk_size
     freqs_shots = Counter()
 
